@@ -1719,6 +1719,8 @@ def tags(case, replies):
                 yield "malformed:" + l[0]
             elif l[0] == "R":
                 yield "static-condition" + (":with-OR" if " OR " in l[1] and not l[1].startswith("(") else "")
+                if "  " in l[1] or "\t" in l[1] or "\n" in l[1]:
+                    yield "static-condition:" + ("comment" if "--" in l[1] else "white-space-run")
     for line, rep in zip(case["lines"], replies):
         w = line.split(" ", 1)[0]
         yield "reply:%s:%s" % (w, rep if rep.startswith("err") else rep.split()[0])
